@@ -182,6 +182,6 @@ def run_case(case, obs) -> None:  # noqa: C901, PLR0912, PLR0915
                 obs.violation(f"energy-error-order:{iname}:{iname_sys}{label}",
                               f"after system.metric was reassigned the median order of the one-step energy error is {float(np.median(e2)):.2f}; "
                               f"sys={spec} int={ispec}")
-    obs.token(spec["sys"], spec.get("metric", spec.get("constr", "-")), ispec["int"], intgen.stages(ispec),
+    obs.token(spec["sys"], spec.get("metric", spec.get("constr", spec.get("generic", "-"))), ispec["int"], intgen.stages(ispec),
               ispec.get("solver", "-"), ispec.get("n_inner_step", 0))
     obs.sample({"sys": spec["sys"], "int": ispec, "order": order, "samples": np.round(orders, 2).tolist()[:6]})
